@@ -56,6 +56,7 @@ type Script struct {
 	InRead           atomic.Bool
 	CloseDelay       int
 	CloseErr         error // returned by Close
+	NonSticky        bool  // a read error is not repeated: the reads after it go on with the script (a reader that recovers)
 	// MarkOffset: ReadsAfterMark counts data-returning reads that started
 	// after the byte at MarkOffset had been delivered.
 	MarkOffset     int
@@ -122,7 +123,7 @@ func (s *Script) Read(p []byte) (int, error) {
 		// data exhausted
 		err = io.EOF
 	}
-	if err != nil {
+	if err != nil && (!s.NonSticky || err == io.EOF) {
 		s.sticky = err
 	}
 	if n > 0 {
